@@ -32,7 +32,23 @@ func (db *DB) newRawIterator(auxm *memDB, auxt tFiles, slice *util.Range, ro *op
 	strict := opt.GetStrict(db.s.o.Options, ro, opt.StrictReader)
 	em, fm := db.getMems()
 	verifAt("r.mems")
+	if em == nil {
+		// The DB has been closed in the meantime.
+		if fm != nil {
+			fm.decref()
+		}
+		return iterator.NewEmptyIterator(ErrClosed)
+	}
 	v := db.s.version()
+	if db.isClosed() {
+		// Closed while the buffers and the version were being taken.
+		v.release()
+		em.decref()
+		if fm != nil {
+			fm.decref()
+		}
+		return iterator.NewEmptyIterator(ErrClosed)
+	}
 
 	tableIts := v.getIterators(slice, ro)
 	n := len(tableIts) + len(auxt) + 3
